@@ -561,4 +561,651 @@ theorem forward_book (env : Env) (d : Desc) (b : Bundle) (n : Node) (it : Item)
             cases hq2
           · exact this
 
+
+/-! ## dispatching -/
+
+theorem modItem_bookLe (k : Key) (f : Item → Item) (n : Node) (hf : ∀ it, (f it).rt = it.rt) :
+    BookLe (fun _ => False) k n (modItem k f n) := by
+  apply bookLe_of_eq
+  · unfold sentL
+    rw [(modItem_only k f n).env.cfg, modItem_get, modItem_spray]
+    cases n.store.get k <;> simp [hf]
+  · unfold hasBook
+    rw [(modItem_only k f n).env.cfg, modItem_get, modItem_spray]
+    cases n.store.get k <;> simp
+
+theorem dispatchingAllowed_bookLe (env : Env) (d : Desc) (n : Node) :
+    BookLe (fun _ => False) d.key n (dispatchingAllowed env d n).2 := by
+  unfold dispatchingAllowed
+  cases n.cfg.algo
+  · simp only
+    cases n.store.get d.key with
+    | none => exact BookLe.refl _ _ _
+    | some it =>
+      simp only
+      split
+      · exact BookLe.refl _ _ _
+      · split
+        · exact modItem_bookLe _ _ _ (fun _ => rfl)
+        · exact BookLe.refl _ _ _
+  all_goals exact BookLe.refl _ _ _
+
+theorem dispatching_book (env : Env) (d : Desc) (n : Node) (it : Item) (b : Bundle)
+    (hg : n.store.get d.key = some it) (hd : d.bndl = some b ∨ (d.bndl = none ∧ it.bundle = b))
+    (hrep : replicates n.cfg b = true) (E : Eid → Prop) (hE : MustStay E b n d.key) :
+    (∀ p b' ok, Output.sent p b' ok ∈ (dispatching env d n).2 →
+      b' = b ∧ (p.eid.sameNode b.dst = false → ¬ E p.eid)) ∧
+    (∀ e, E e → Booked (dispatching env d n).1 d.key e) := by
+  unfold dispatching
+  simp only
+  have ha := dispatchingAllowed_rt env d n
+  have hab := dispatchingAllowed_bookLe env d n
+  rcases ha.item it hg with ⟨ita, ga, ba, _⟩
+  have hEa : ∀ e, E e → Booked (dispatchingAllowed env d n).2 d.key e := fun e he => hab e (hE.booked e he) id
+  have hcfg : (dispatchingAllowed env d n).2.cfg = n.cfg := ha.only.env.cfg
+  split
+  · refine ⟨(fun p b' ok h => by cases h), fun e he => ?_⟩
+    split
+    · exact sync_bookLe { d with cons := { d.cons with ci := true } } _ ita ga e (hEa e he) id
+    · exact hEa e he
+  · cases hbun : d.bundle (dispatchingAllowed env d n).2 with
+    | none => exact ⟨(fun p b' ok h => by cases h), hEa⟩
+    | some b1 =>
+      simp only
+      have hb1 : b1 = b := by
+        unfold Desc.bundle at hbun
+        rcases hd with h | ⟨h, hib⟩
+        · simp [h] at hbun; exact hbun.symm
+        · simp only [h, ga] at hbun
+          split at hbun
+          · cases hbun; rw [ba]; exact hib
+          · cases hbun
+      subst hb1
+      split
+      · refine ⟨(fun p b' ok h => by cases h), fun e he => ?_⟩
+        unfold localDelivery
+        have hne : ({ d.cons with le := true } : Cons).isEmpty = false := by simp [Cons.isEmpty]
+        have h1 := sync_update { { d with bndl := some b1 } with cons := { d.cons with le := true } } _ ita ga hne
+        have hb1 := sync_bookLe { { d with bndl := some b1 } with cons := { d.cons with le := true } } _ ita ga e (hEa e he) id
+        exact sync_bookLe { { { d with bndl := some b1 } with cons := { d.cons with le := true } } with
+          cons := ({ d.cons with le := true } : Cons).purge } _ _ h1 e hb1 id
+      · have := forward_book env { d with bndl := some b1 } b1 (dispatchingAllowed env d n).2 ita ga
+          (by rw [hcfg]; exact hrep) E ⟨hE.notDst, hEa⟩
+        refine ⟨fun p b' ok h => ?_, this.2⟩
+        rcases forward_outs env { d with bndl := some b1 } b1 _ rfl _ h with ⟨q, b2, ok2, hq, _, _⟩
+        -- the outputs of `forward` name the bundle `b1`
+        have hb' : b' = b1 := by
+          unfold forward at h
+          simp only at h
+          split at h
+          · cases h
+          · split at h
+            · cases h
+            · split at h
+              · cases h
+              · rcases forwardSend_outs env b1 _ _ h with ⟨_, _, _, hx⟩
+                cases hx; rfl
+        subst hb'
+        exact ⟨rfl, this.1 p ok h⟩
+
+
+/-! ## The previous-node invariant -/
+
+/-- The previous node of `b`, unless it is the destination's node (then delivery is direct anyway). -/
+def PrevE (b : Bundle) : Eid → Prop := fun e => b.prev = some e ∧ e.sameNode b.dst = false
+
+theorem PrevE_like {a b : Bundle} (h : Like a b) : PrevE b = PrevE a := by
+  funext e
+  unfold PrevE
+  rw [h.2.2.1, h.2.2.2]
+
+theorem replicates_like {c : Cfg} {a b : Bundle} (h : Like a b) : replicates c b = replicates c a := by
+  unfold replicates
+  rw [h.2.2.2]
+
+/-- Every stored bundle's previous node is in its sent list. -/
+def PrevInv (c : Cfg) (n : Node) : Prop :=
+  ∀ k it, n.store.get k = some it → replicates c it.bundle = true → ∀ e, PrevE it.bundle e → Booked n k e
+
+/-- A transmission that is not a return to the previous node. -/
+def NoRet (c : Cfg) (o : Output) : Prop :=
+  ∀ p b ok, o = Output.sent p b ok → p.eid.sameNode b.dst = false → replicates c b = true → b.prev ≠ some p.eid
+
+theorem booked_frame {k k' : Key} {n n' : Node} (h : OnlyKey k n n') (hk : k' ≠ k) (e : Eid) :
+    Booked n k' e → Booked n' k' e := by
+  intro hb hh
+  rw [(sentL_frame h hk).1]
+  exact hb (by rw [← (sentL_frame h hk).2]; exact hh)
+
+/-- One retry keeps the invariant and does not send a bundle back. -/
+theorem dispatch_prev (env : Env) (c : Cfg) (n : Node) (k : Key) (w : WF n) (hc : n.cfg = c) (hp : PrevInv c n) :
+    PrevInv c (dispatching env (newDesc n k) n).1 ∧ ∀ o ∈ (dispatching env (newDesc n k) n).2, NoRet c o := by
+  have hd := dispatching_only env (newDesc n k) n w (by intro b h; rw [newDesc_bndl] at h; cases h)
+  rw [newDesc_key] at hd
+  cases hg : n.store.get k with
+  | none =>
+    -- nothing to retry
+    have hnone : dispatching env (newDesc n k) n = ((dispatching env (newDesc n k) n).1, []) ∧
+        (dispatching env (newDesc n k) n).1.store.get k = none := by
+      unfold dispatching
+      simp only
+      have ha := dispatchingAllowed_rt env (newDesc n k) n
+      rw [newDesc_key] at ha
+      have hna := ha.absent hg
+      split
+      · split
+        · refine ⟨rfl, ?_⟩
+          unfold bundleContraindicated sync
+          simp only [newDesc_key, hna, newDesc_bndl]
+        · exact ⟨rfl, hna⟩
+      · have : (newDesc n k).bundle (dispatchingAllowed env (newDesc n k) n).2 = none := by
+          unfold Desc.bundle
+          simp only [newDesc_bndl, newDesc_key, hna]
+        simp only [this]
+        exact ⟨trivial, hna⟩
+    constructor
+    · intro k' it' hg' hrep e he
+      by_cases hk : k' = k
+      · subst hk; rw [hnone.2] at hg'; cases hg'
+      · rw [hd.only.other k' hk] at hg'
+        exact booked_frame hd.only hk e (hp k' it' hg' hrep e he)
+    · intro o ho
+      rw [hnone.1] at ho
+      cases ho
+  | some it =>
+    by_cases hrep : replicates c it.bundle = true
+    · have hb := dispatching_book env (newDesc n k) n it it.bundle (by rw [newDesc_key]; exact hg)
+        (Or.inr ⟨newDesc_bndl n k, rfl⟩) (by rw [hc]; exact hrep) (PrevE it.bundle)
+        ⟨fun e he => he.2, fun e he => by rw [newDesc_key]; exact hp k it hg hrep e he⟩
+      rw [newDesc_key] at hb
+      have hlike := dispatching_bstep env (newDesc n k) it.bundle n
+        (Or.inr ⟨newDesc_bndl n k, it, by rw [newDesc_key]; exact hg, rfl⟩)
+        (by rw [newDesc_key]; exact w.keyed _ _ hg)
+      rw [newDesc_key] at hlike
+      constructor
+      · intro k' it' hg' hrep' e he
+        by_cases hk : k' = k
+        · subst hk
+          have hl : Like it.bundle it'.bundle := by
+            rcases hlike.bundle it' hg' with ⟨it0, g0, l0⟩ | l0
+            · rw [hg] at g0; cases g0; exact l0
+            · exact l0
+          rw [PrevE_like hl] at he
+          exact hb.2 e he
+        · rw [hd.only.other k' hk] at hg'
+          exact booked_frame hd.only hk e (hp k' it' hg' hrep' e he)
+      · intro o ho p b ok ho' hns hrepb hprev
+        subst ho'
+        rcases hb.1 p b ok ho with ⟨hbb, hne⟩
+        subst hbb
+        exact hne hns ⟨hprev, hns⟩
+    · -- a bundle the replication clause does not speak about (DTLSR unicast)
+      have hlike := dispatching_bstep env (newDesc n k) it.bundle n
+        (Or.inr ⟨newDesc_bndl n k, it, by rw [newDesc_key]; exact hg, rfl⟩)
+        (by rw [newDesc_key]; exact w.keyed _ _ hg)
+      rw [newDesc_key] at hlike
+      constructor
+      · intro k' it' hg' hrep' e he
+        by_cases hk : k' = k
+        · subst hk
+          have hl : Like it.bundle it'.bundle := by
+            rcases hlike.bundle it' hg' with ⟨it0, g0, l0⟩ | l0
+            · rw [hg] at g0; cases g0; exact l0
+            · exact l0
+          rw [replicates_like hl] at hrep'
+          exact absurd hrep' hrep
+        · rw [hd.only.other k' hk] at hg'
+          exact booked_frame hd.only hk e (hp k' it' hg' hrep' e he)
+      · intro o ho p b ok ho' hns hrepb hprev
+        subst ho'
+        have hout := dispatching_outs env (newDesc n k) n it (by rw [newDesc_key]; exact hg) _ ho
+        -- the outputs name the stored bundle
+        have hbb : b = it.bundle := by
+          have := dispatching_names env (newDesc n k) n it (by rw [newDesc_key]; exact hg) _ ho
+          simpa [descTag, newDesc_bndl] using this
+        rw [hbb] at hrepb
+        exact hrep hrepb
+
+
+theorem dispatchKeys_prev (env : Env) (c : Cfg) : ∀ (ks : List Key) (n : Node), WF n → n.cfg = c → PrevInv c n →
+    PrevInv c (dispatchKeys env ks n).1 ∧ ∀ o ∈ (dispatchKeys env ks n).2, NoRet c o
+  | [], n, _, _, hp => ⟨hp, fun o ho => by cases ho⟩
+  | k :: ks, n, w, hc, hp => by
+    simp only [dispatchKeys]
+    have hd := dispatching_only env (newDesc n k) n w (by intro b h; rw [newDesc_bndl] at h; cases h)
+    rcases dispatch_prev env c n k w hc hp with ⟨hp1, ho1⟩
+    rcases dispatchKeys_prev env c ks _ (hd.wf w) (hd.only.env.cfg.trans hc) hp1 with ⟨hp2, ho2⟩
+    refine ⟨hp2, fun o ho => ?_⟩
+    rcases List.mem_append.mp ho with h | h
+    · exact ho1 o h
+    · exact ho2 o h
+
+/-! ### a new bundle: `NotifyNewBundle` books the previous node -/
+
+/-- The conditions under which the algorithm records the previous node of a new bundle: spray-and-wait
+only for bundles of other nodes, binary spray only with a BinarySprayBlock (known finding). -/
+def seedsPrev (c : Cfg) (b : Bundle) : Prop :=
+  match c.algo with
+  | .spray => hasEndpoint c b.src = false
+  | .binarySpray => b.bsCopies.isSome = true
+  | _ => True
+
+theorem notifyNew_booked (k : Key) (b : Bundle) (n : Node) (it : Item) (hg : n.store.get k = some it)
+    (hs : seedsPrev n.cfg b) (e : Eid) (he : b.prev = some e) : Booked (notifyNew k b n) k e := by
+  intro _
+  unfold notifyNew
+  unfold seedsPrev at hs
+  cases ha : n.cfg.algo with
+  | epidemic =>
+    simp only
+    rw [sentL_modRt_E _ _ _ ha]
+    simp only [hg, Option.map_some, Option.getD_some, epiNotify, he]
+    split <;> split <;> simp_all
+  | spray =>
+    simp only [ha] at hs
+    simp only [hs, Bool.false_eq_true, if_false]
+    simp [sentL, ha, lookupMeta_setMeta_eq, he]
+  | binarySpray =>
+    simp only [ha] at hs
+    cases hbs : b.bsCopies with
+    | none => simp [hbs] at hs
+    | some cp => simp [sentL, ha, lookupMeta_setMeta_eq, he]
+  | prophet =>
+    simp only [he]
+    rw [sentL_modRt_P _ _ _ ha]
+    simp only [hg, Option.map_some, Option.getD_some]
+    split <;> simp_all
+  | dtlsr =>
+    simp only [he]
+    rw [sentL_modRt_D _ _ _ ha]
+    simp [hg]
+
+
+/-! ### submit -/
+
+theorem setIdk_bstep (b : Bundle) (k : Key) (n : Node) (x : List ((Eid × Nat) × Nat)) : BStep b k n (n.setIdk x) :=
+  ⟨fun it' h => Or.inl ⟨it', h, Like.refl _⟩⟩
+
+theorem dispatching_names' (env : Env) (d : Desc) (b : Bundle) (n : Node) (hd : d.bndl = some b) :
+    ∀ o ∈ (dispatching env d n).2, ∃ p ok, o = Output.sent p b ok := by
+  intro o ho
+  unfold dispatching at ho
+  simp only at ho
+  split at ho
+  · cases ho
+  · have hbun : d.bundle (dispatchingAllowed env d n).2 = some b := by simp [Desc.bundle, hd]
+    simp only [hbun] at ho
+    split at ho
+    · cases ho
+    · exact forward_names env _ b _ o ho
+
+theorem transmit_bstep (env : Env) (d : Desc) (b : Bundle) (n : Node) (hk : b.key = d.key)
+    (hidk : n.cfg.seqFirst = true ∨ (lookupNat n.idk (b.src, b.ts) = none ∧ b.seq = 0)) :
+    BStep b d.key n (transmit env d b n).1 ∧ ∀ o ∈ (transmit env d b n).2, ∃ p ok, o = Output.sent p b ok := by
+  unfold transmit
+  simp only
+  rcases seqStep_x' n.cfg.seqFirst b n hidk with ⟨x, hx, _⟩
+  rw [hx]
+  simp only
+  have hb : ∀ b0, ({ d with bndl := some b, cons := { d.cons with dp := true } } : Desc).bndl = some b0 →
+      Like b b0 ∧ b0.key = d.key := by
+    intro b0 h; cases h; exact ⟨Like.refl _, hk⟩
+  have s1 := (setIdk_bstep b d.key n x).trans
+    (sync_bstep b { d with bndl := some b, cons := { d.cons with dp := true } } (n.setIdk x) hb)
+  split
+  · exact ⟨s1.trans (bundleDeletion_bstep b _ _ hb), fun o ho => by cases ho⟩
+  · exact ⟨s1.trans (dispatching_bstep env { d with bndl := some b, cons := { d.cons with dp := true } } b _ (Or.inl rfl) hk),
+      dispatching_names' env { d with bndl := some b, cons := { d.cons with dp := true } } b _ rfl⟩
+
+theorem sendBundle_bstep (env : Env) (b : Bundle) (n : Node)
+    (hidk : lookupNat n.idk (b.src, b.ts) = none ∧ b.seq = 0) :
+    BStep b b.key n (sendBundle env b n).1 ∧ ∀ o ∈ (sendBundle env b n).2, ∃ p ok, o = Output.sent p b ok := by
+  unfold sendBundle
+  simp only
+  rcases seqStep_x n.cfg.seqFirst b n hidk with ⟨x, hx, hx0, _⟩
+  rw [hx]
+  simp only
+  unfold newDescFromBundle
+  simp only
+  have hDk := newDesc_key (n.setIdk x) b.key
+  generalize newDesc (n.setIdk x) b.key = D at hDk ⊢
+  obtain ⟨Dk, Dr, Dc, Db⟩ := D
+  simp only at hDk
+  subst hDk
+  simp only
+  have hbk : ∀ b0, ({ key := b.key, receiver := Dr, cons := Dc, bndl := some b } : Desc).bndl = some b0 →
+      Like b b0 ∧ b0.key = b.key := by
+    intro b0 h; cases h; exact ⟨Like.refl _, rfl⟩
+  have s1 := (setIdk_bstep b b.key n x).trans
+    (sync_bstep b { key := b.key, receiver := Dr, cons := Dc, bndl := some b } (n.setIdk x) hbk)
+  have k1 := sync_kstep { key := b.key, receiver := Dr, cons := Dc, bndl := some b } (n.setIdk x) (fun b0 h => (hbk b0 h).2)
+  have rt2 := notifyNew_rt b.key b (sync { key := b.key, receiver := Dr, cons := Dc, bndl := some b } (n.setIdk x))
+  have s2 := s1.trans (rt2.bstep (b := b))
+  have hcfg12 : (notifyNew b.key b (sync { key := b.key, receiver := Dr, cons := Dc, bndl := some b } (n.setIdk x))).cfg = n.cfg :=
+    rt2.only.env.cfg.trans k1.only.env.cfg
+  have hidk12 : (notifyNew b.key b (sync { key := b.key, receiver := Dr, cons := Dc, bndl := some b } (n.setIdk x))).idk = x :=
+    rt2.idk.trans k1.idk
+  have k3 := transmit_bstep env { key := b.key, receiver := Dr, cons := Dc, bndl := some b } b
+    (notifyNew b.key b (sync { key := b.key, receiver := Dr, cons := Dc, bndl := some b } (n.setIdk x))) rfl
+    (by
+      rw [hcfg12, hidk12]
+      cases hsf : n.cfg.seqFirst
+      · right; rw [hx0 hsf]; exact hidk
+      · left; rfl)
+  exact ⟨s2.trans k3.1, k3.2⟩
+
+/-- A submission (new ID, no previous-node block) keeps the invariant and sends nothing back. -/
+theorem submit_prev (env : Env) (c : Cfg) (b : Bundle) (n : Node) (w : WF n) (hp : PrevInv c n)
+    (hfresh : n.store.get b.key = none)
+    (hidk : lookupNat n.idk (b.src, b.ts) = none ∧ b.seq = 0) (hprev : b.prev = none) :
+    PrevInv c (sendBundle env b n).1 ∧ ∀ o ∈ (sendBundle env b n).2, NoRet c o := by
+  have hstep := sendBundle_kstep env b n w hidk
+  have hb := sendBundle_bstep env b n hidk
+  constructor
+  · intro k it' hg' hrep e he
+    by_cases hk : k = b.key
+    · subst hk
+      -- the item holds the submitted bundle, which has no previous node
+      rcases hb.1.bundle it' hg' with ⟨it0, g0, l0⟩ | l0
+      · rw [hfresh] at g0; cases g0
+      · rw [PrevE_like l0] at he
+        unfold PrevE at he
+        rw [hprev] at he
+        exact absurd he.1 (by simp)
+    · rw [hstep.other k hk] at hg'
+      exact booked_frame hstep.only hk e (hp k it' hg' hrep e he)
+  · intro o ho p b' ok hob hns hrep hpr
+    rcases hb.2 o ho with ⟨q, ok', hq⟩
+    rw [hob] at hq
+    cases hq
+    rw [hprev] at hpr
+    cases hpr
+
+
+/-! ### receive -/
+
+/-- The three `Sync`s at the beginning of the reception of a bundle the node does not know (no item, or
+an item without constraints): afterwards the store holds exactly the received copy. -/
+theorem receive_m (b : Bundle) (r : Option Eid) (n : Node) (D : Desc) (hD : D = newDesc n b.key)
+    (he : D.cons.isEmpty = true) :
+    ∃ itm, (sync { key := b.key, receiver := r, cons := { D.cons with dp := true }, bndl := some b }
+      (sync { key := b.key, receiver := r, cons := D.cons, bndl := some b }
+        (sync { key := b.key, receiver := D.receiver, cons := D.cons, bndl := some b } n))).store.get b.key = some itm ∧
+      itm.bundle = b := by
+  have hne : ({ D.cons with dp := true } : Cons).isEmpty = false := by simp [Cons.isEmpty]
+  cases hg : n.store.get b.key with
+  | none =>
+    have hs1 : sync { key := b.key, receiver := D.receiver, cons := D.cons, bndl := some b } n = push b n :=
+      sync_push _ _ b hg rfl
+    rw [hs1]
+    have hg1 := push_get_absent b n hg
+    have hg2 := sync_delete { key := b.key, receiver := r, cons := D.cons, bndl := some b } (push b n) _ hg1 he
+    have hs3 := sync_push { key := b.key, receiver := r, cons := { D.cons with dp := true }, bndl := some b } _ b hg2 rfl
+    rw [hs3]
+    exact ⟨_, push_get_absent b _ hg2, rfl⟩
+  | some it =>
+    have hg1 := sync_delete { key := b.key, receiver := D.receiver, cons := D.cons, bndl := some b } n it hg he
+    have hs2 := sync_push { key := b.key, receiver := r, cons := D.cons, bndl := some b } _ b hg1 rfl
+    rw [hs2]
+    have hg2 := push_get_absent b _ hg1
+    have hg3 := sync_update { key := b.key, receiver := r, cons := { D.cons with dp := true }, bndl := some b } _ _ hg2 hne
+    exact ⟨_, hg3, rfl⟩
+
+theorem receive_prev (env : Env) (c : Cfg) (b : Bundle) (r : Option Eid) (n : Node) (w : WF n) (hc : n.cfg = c)
+    (hp : PrevInv c n) (hs : seedsPrev c b ∨ b.prev = none) :
+    PrevInv c (receive env b r n).1 ∧ ∀ o ∈ (receive env b r n).2, NoRet c o := by
+  have hstep := receive_kstep env b r n w
+  -- everything about other keys
+  have hother : ∀ k it' , k ≠ b.key → (receive env b r n).1.store.get k = some it' → replicates c it'.bundle = true →
+      ∀ e, PrevE it'.bundle e → Booked (receive env b r n).1 k e := by
+    intro k it' hk hg' hrep e he
+    rw [hstep.only.other k hk] at hg'
+    exact booked_frame hstep.only hk e (hp k it' hg' hrep e he)
+  unfold receive at hother ⊢
+  simp only at hother ⊢
+  unfold newDescFromBundle at hother ⊢
+  simp only at hother ⊢
+  have hDk := newDesc_key n b.key
+  generalize hD : newDesc n b.key = D at hDk hother ⊢
+  obtain ⟨Dk, Dr, Dc, Db⟩ := D
+  simp only at hDk
+  subst hDk
+  simp only at hother ⊢
+  by_cases hemp : Dc.isEmpty = true
+  · -- treated as a new bundle
+    simp only [hemp, Bool.not_true, Bool.false_eq_true, if_false] at hother ⊢
+    rcases receive_m b r n ⟨b.key, Dr, Dc, Db⟩ hD.symm hemp with ⟨itm, hgm, hbm⟩
+    simp only at hgm
+    generalize hm : sync { key := b.key, receiver := r, cons := { Dc with dp := true }, bndl := some b }
+      (sync { key := b.key, receiver := r, cons := Dc, bndl := some b }
+        (sync { key := b.key, receiver := Dr, cons := Dc, bndl := some b } n)) = m at hgm hother ⊢
+    have hmcfg : m.cfg = c := by
+      rw [← hm, (sync_env _ _).cfg, (sync_env _ _).cfg, (sync_env _ _).cfg]; exact hc
+    by_cases hdel : b.delBlock = true
+    · simp only [hdel, if_true] at hother ⊢
+      refine ⟨?_, fun o ho => by cases ho⟩
+      intro k it' hg' hrep e he
+      by_cases hk : k = b.key
+      · subst hk
+        have hne : ({ Dc with dp := true } : Cons).purge.isEmpty = true := by
+          simp [Cons.purge, Cons.isEmpty, Cons.empty]
+          have : Dc.le = false := by
+            unfold Cons.isEmpty at hemp
+            cases h : Dc.le <;> simp_all
+          exact this
+        have := sync_delete { key := b.key, receiver := r, cons := ({ Dc with dp := true } : Cons).purge, bndl := some b }
+          m itm hgm hne
+        unfold bundleDeletion at hg'
+        rw [this] at hg'
+        cases hg'
+      · exact hother k it' hk hg' hrep e he
+    · simp only [hdel, Bool.false_eq_true, if_false] at hother ⊢
+      have hnn := notifyNew_rt b.key b m
+      rcases hnn.item itm hgm with ⟨it4, g4, b4, _⟩
+      have hcfg4 : (notifyNew b.key b m).cfg = c := hnn.only.env.cfg.trans hmcfg
+      by_cases hrep : replicates c b = true
+      · have hE : MustStay (PrevE b) b (notifyNew b.key b m) b.key := by
+          refine ⟨fun e he => he.2, fun e he => ?_⟩
+          rcases hs with hs | hs
+          · exact notifyNew_booked b.key b m itm hgm (by rw [hmcfg]; exact hs) e he.1
+          · unfold PrevE at he; rw [hs] at he; exact absurd he.1 (by simp)
+        have hb := dispatching_book env { key := b.key, receiver := r, cons := { Dc with dp := true }, bndl := some b }
+          (notifyNew b.key b m) it4 b g4 (Or.inl rfl) (by rw [hcfg4]; exact hrep) (PrevE b) hE
+        have hlike := dispatching_bstep env { key := b.key, receiver := r, cons := { Dc with dp := true }, bndl := some b }
+          b (notifyNew b.key b m) (Or.inl rfl) rfl
+        constructor
+        · intro k it' hg' hrep' e he
+          by_cases hk : k = b.key
+          · subst hk
+            have hl : Like b it'.bundle := by
+              rcases hlike.bundle it' hg' with ⟨it0, g0, l0⟩ | l0
+              · rw [g4] at g0; cases g0; rw [b4, hbm] at l0; exact l0
+              · exact l0
+            rw [PrevE_like hl] at he
+            exact hb.2 e he
+          · exact hother k it' hk hg' hrep' e he
+        · intro o ho p b' ok hob hns hrepb hprev
+          subst hob
+          rcases hb.1 p b' ok ho with ⟨hbb, hne⟩
+          subst hbb
+          exact hne hns ⟨hprev, hns⟩
+      · have hlike := dispatching_bstep env { key := b.key, receiver := r, cons := { Dc with dp := true }, bndl := some b }
+          b (notifyNew b.key b m) (Or.inl rfl) rfl
+        constructor
+        · intro k it' hg' hrep' e he
+          by_cases hk : k = b.key
+          · subst hk
+            have hl : Like b it'.bundle := by
+              rcases hlike.bundle it' hg' with ⟨it0, g0, l0⟩ | l0
+              · rw [g4] at g0; cases g0; rw [b4, hbm] at l0; exact l0
+              · exact l0
+            rw [replicates_like hl] at hrep'
+            exact absurd hrep' hrep
+          · exact hother k it' hk hg' hrep' e he
+        · intro o ho p b' ok hob hns hrepb hprev
+          subst hob
+          rcases dispatching_names' env { key := b.key, receiver := r, cons := { Dc with dp := true }, bndl := some b }
+            b _ rfl _ ho with ⟨q, ok', hq⟩
+          cases hq
+          exact hrep hrepb
+  · -- known bundle: the descriptor is synchronized twice and the reception ends
+    have hemp' : Dc.isEmpty = false := by cases h : Dc.isEmpty <;> simp_all
+    simp only [hemp', Bool.not_false, if_true] at hother ⊢
+    refine ⟨?_, fun o ho => by cases ho⟩
+    intro k it' hg' hrep e he
+    by_cases hk : k = b.key
+    · subst hk
+      -- the item existed (its constraints were read from it)
+      cases hg : n.store.get b.key with
+      | none =>
+        have : Dc = Cons.empty := by
+          have := hD
+          unfold newDesc at this
+          simp only [hg] at this
+          cases this; rfl
+        rw [this] at hemp'
+        cases hemp'
+      | some it =>
+        have h1 := sync_update { key := b.key, receiver := Dr, cons := Dc, bndl := some b } n it hg hemp'
+        have h2 := sync_update { key := b.key, receiver := r, cons := Dc, bndl := some b } _ _ h1 hemp'
+        rw [h2] at hg'
+        cases hg'
+        have hb1 := sync_bookLe { key := b.key, receiver := Dr, cons := Dc, bndl := some b } n it hg e
+          (hp b.key it hg hrep e he) id
+        exact sync_bookLe { key := b.key, receiver := r, cons := Dc, bndl := some b } _ _ h1 e hb1 id
+    · exact hother k it' hk hg' hrep e he
+
+
+/-! ## Every history: never back to the previous node -/
+
+/-- The histories of `Domain` in which, in addition, applications do not attach previous-node blocks,
+peers deliver bundles of other nodes and — under binary spray — relayed bundles that carry a previous
+node also carry the BinarySprayBlock (the class excluded by the last clause is the known finding). -/
+structure Domain13 (c : Cfg) (h : List Event) : Prop where
+  dom : Domain h
+  subPrev : ∀ b ∈ submitted h, b.prev = none
+  recvSeeds : ∀ b ∈ received h, seedsPrev c b ∨ b.prev = none
+
+theorem noRet_returnFail (c : Cfg) (e : Event) (outs : List Output) (v : View) (h : ∀ o ∈ outs, NoRet c o) :
+    returnFail c ⟨e, outs, v⟩ = none := by
+  unfold returnFail
+  apply List.findSome?_eq_none_iff.mpr
+  intro pbk hpbk
+  unfold chosen at hpbk
+  rcases List.mem_filterMap.mp hpbk with ⟨o, ho, hf⟩
+  cases o with
+  | deleted k => simp at hf
+  | sent p b ok =>
+    simp only at hf
+    split at hf
+    · cases hf
+    · rename_i hcond
+      cases hf
+      simp only [Bool.or_eq_true, Bool.not_eq_true', not_or, Bool.not_eq_true, Bool.not_eq_false] at hcond
+      have := h _ ho p b ok rfl hcond.1 hcond.2
+      simp only
+      split
+      · rename_i heq
+        exact absurd (by simpa using heq) this
+      · rfl
+
+theorem prevInv_storeSame (c : Cfg) (n m : Node) (hp : PrevInv c n) (hs : m.store = n.store) (hc : m.cfg = n.cfg)
+    (hsp : m.spray = n.spray ∨ m.spray = []) : PrevInv c m := by
+  intro k it hg hrep e he
+  rw [hs] at hg
+  have hb := hp k it hg hrep e he
+  rcases hsp with hsp | hsp
+  · have h1 : sentL m k = sentL n k := by unfold sentL; rw [hc, hs, hsp]
+    have h2 : hasBook m k = hasBook n k := by unfold hasBook; rw [hc, hs, hsp]
+    intro hh
+    rw [h1]
+    exact hb (by rw [← h2]; exact hh)
+  · intro hh
+    unfold hasBook at hh
+    rw [hc, hs, hsp] at hh
+    unfold Booked hasBook at hb
+    unfold sentL at hb ⊢
+    rw [hc, hs, hsp]
+    cases ha : n.cfg.algo <;> simp only [ha, lookupMeta] at hh hb ⊢
+    · exact hb hh
+    · cases hh
+    · cases hh
+    · exact hb hh
+    · exact hb hh
+
+theorem prev_step (c : Cfg) (env : Env) (past fut : List Event) (e : Event)
+    (hdom : Domain13 c (past ++ e :: fut)) (s : SpecSt) (n : Node) (inv : RInv c past s n) (hp : PrevInv c n) :
+    returnFail c (obsOf (e, (step env n e).2, (step env n e).1)) = none ∧ PrevInv c (step env n e).1 := by
+  -- it is enough to look at the core of the step
+  suffices h : PrevInv c (stepCore env n e).1 ∧ ∀ o ∈ (stepCore env n e).2, NoRet c o by
+    constructor
+    · apply noRet_returnFail
+      intro o ho
+      rcases List.mem_append.mp ho with h1 | h1
+      · exact h.2 o h1
+      · unfold deletedKeys at h1
+        rcases List.mem_map.mp h1 with ⟨kv, _, hk⟩
+        intro p b ok hob
+        rw [← hk] at hob
+        cases hob
+    · exact prevInv_storeSame c _ _ h.1 rfl rfl (Or.inl rfl)
+  cases e with
+  | submit b =>
+    have hf := submit_fresh c past fut b hdom.dom s n inv
+    have hb : b ∈ submitted (past ++ .submit b :: fut) := by
+      rw [submitted_append]; exact List.mem_append_right _ List.mem_cons_self
+    exact submit_prev env c b n inv.wf hp hf.1 hf.2 (hdom.subPrev b hb)
+  | receive b r =>
+    have hb : b ∈ received (past ++ .receive b r :: fut) := by
+      rw [received_append]; exact List.mem_append_right _ List.mem_cons_self
+    exact receive_prev env c b r n inv.wf inv.cfg hp (hdom.recvSeeds b hb)
+  | peerUp p =>
+    simp only [stepCore]
+    split
+    · exact dispatchKeys_prev env c _ n inv.wf inv.cfg hp
+    · exact dispatchKeys_prev env c _ _ ⟨inv.wf.keyed, inv.wf.nodup⟩ inv.cfg
+        (prevInv_storeSame c n _ hp rfl rfl (Or.inl rfl))
+  | peerDown a =>
+    exact ⟨prevInv_storeSame c n _ hp rfl rfl (Or.inl rfl), fun o ho => by cases ho⟩
+  | retryTick => exact dispatchKeys_prev env c _ n inv.wf inv.cfg hp
+  | restart =>
+    exact ⟨prevInv_storeSame c n _ hp rfl rfl (Or.inr rfl), fun o ho => by cases ho⟩
+  | cleanTick t =>
+    refine ⟨?_, fun o ho => by cases ho⟩
+    intro k it hg hrep e he hh
+    have hget : ∀ k, (stepCore env n (.cleanTick t)).1.store.get k =
+        if k ∈ expiredKeys n.store t then none else n.store.get k := by
+      intro k
+      simp only [stepCore, deleteExpired]
+      exact Store.get_foldl_erase _ _ _
+    rw [hget] at hg
+    split at hg
+    · cases hg
+    · rename_i hk
+      have hb := hp k it hg hrep e he
+      unfold Booked hasBook sentL at hb
+      unfold hasBook at hh
+      unfold sentL
+      have hcfg : (stepCore env n (.cleanTick t)).1.cfg = n.cfg := rfl
+      have hsp : (stepCore env n (.cleanTick t)).1.spray = n.spray := rfl
+      rw [hcfg, hsp, hget] at *
+      simp only [hk, if_false] at hh ⊢
+      exact hb hh
+
+theorem prev_run (c : Cfg) (hfix : c.holdFix = true) (hexp : c.expiryNow = true) (env : Env) :
+    ∀ (fut past : List Event) (s : SpecSt) (n : Node) (i : Nat), Domain13 c (past ++ fut) → RInv c past s n →
+    PrevInv c n → firstFail (fun c _ o => returnFail c o) c s i ((trace env n fut).map obsOf) = none
+  | [], _, _, _, _, _, _, _ => rfl
+  | e :: fut, past, s, n, i, hdom, inv, hp => by
+    simp only [trace, List.map_cons, firstFail]
+    rcases rinv_step c hfix hexp env past fut e hdom.dom s n inv with ⟨_, h2⟩
+    rcases prev_step c env past fut e hdom s n inv hp with ⟨h3, h4⟩
+    rw [h3]
+    simp only
+    exact prev_run c hfix hexp env fut (past ++ [e]) _ _ (i + 1) (by simpa using hdom) h2 h4
+
+theorem prevInv_init (c : Cfg) (now : Nat) : PrevInv c (init c now) := by
+  intro k it h
+  simp [init, Store.get] at h
+
 end Dtn7.Node
